@@ -169,7 +169,9 @@ InfoBig(e, c, o, cand) ==
 
 RealBoth(e) ==
   LET s    == e.sys
-      rv   == IF e.hasfile THEN R!JudgeRead(e.file, e.read) ELSE "ok"
+      rd   == R!Read(e.file)
+      rv   == IF e.hasfile THEN R!JudgeReadR(e.file, e.read, rd) ELSE "ok"
+      ri   == IF e.hasfile /\ rv # "malformed-input" THEN R!ReadInfo(e.file, rd) ELSE [nrecs |-> 0]
       wf   == B!WellFormedBig(s) /\ Len(s.oldd) = Len(s.old)
       cand == B!CandPairs(s)
       near == B!AnyNearC(s, cand)
@@ -177,7 +179,7 @@ RealBoth(e) ==
       o    == B!FastOutC(s, c, cand)
   IN [v |-> IF ~wf THEN "malformed-input" ELSE IF near THEN "unspecified-near-threshold"
             ELSE IF rv # "ok" THEN rv ELSE JudgeBig(e, c, o),
-      i |-> IF ~wf \/ near THEN [natoms |-> 0] ELSE InfoBig(e, c, o, cand)]
+      i |-> IF ~wf \/ near THEN [natoms |-> 0, read |-> ri] ELSE InfoBig(e, c, o, cand) @@ [read |-> ri]]
 
 IsReal(e) == "kind" \in DOMAIN e /\ e.kind = "real"
 Init == tid \in 1..Len(Batch) /\ verdict = "pending" /\ info = <<>>
